@@ -72,7 +72,7 @@ class PKI:
     """root -> n intermediates -> leaf; every knob the chain-fault catalogue needs."""
 
     def __init__(self, tag="A", n_inter=0, root_cn="Forged Root", root_nb=T0 - 10 * DAY, root_na=T0 + 3650 * DAY,
-                 inter_nb=T0 - 5 * DAY, inter_na=T0 + 1000 * DAY, inter_ca=True, root_bc=True, root_ski=False, inter_pathlen0=False):
+                 inter_nb=T0 - 5 * DAY, inter_na=T0 + 1000 * DAY, inter_ca=True, root_bc=True, root_ski=False, inter_pathlen0=False, root_v1=False):
         self.tag = tag
         self.root_key = ec_key(f"{tag}_root")
         self.root_name = name(root_cn)
@@ -91,6 +91,12 @@ class PKI:
                 _PKI_CACHE[rk] = make_cert(self.root_name, self.root_name, self.root_key.public_key(), self.root_key, nb=root_nb, na=root_na, ca=None,
                                            exts=[(ku, True)], serial=4242)
         self.root = _PKI_CACHE[rk]
+        if root_v1:
+            # the same root as an X.509 VERSION 1 certificate (no extensions at all; self-issued v1 certificates are CA certificates to OpenSSL): roots of the 1990s / 2000s
+            vk = ("root-v1",) + rk
+            if vk not in _PKI_CACHE:
+                _PKI_CACHE[vk] = as_x509_v1(self.root, self.root_key)
+            self.root = _PKI_CACHE[vk]
         self.inters = []
         self.inter_keys = []
         issuer_name, issuer_key = self.root_name, self.root_key
@@ -111,7 +117,17 @@ class PKI:
 
     leaf_aki_issuer_serial = False
 
+    leaf_issuer_respelled = False          # the leaf names its issuer in another SPELLING of the same distinguished name (other case, doubled blanks, PrintableString)
+
     def leaf(self, subject, pubkey, nb=T0 - DAY, na=T0 + 365 * DAY, exts=(), ca=False, signer_key=None):
+        if self.leaf_issuer_respelled:
+            saved = self.issuer_name
+            self.issuer_name = respelled_name(saved)
+            try:
+                self.leaf_issuer_respelled = False
+                return self.leaf(subject, pubkey, nb=nb, na=na, exts=exts, ca=ca, signer_key=signer_key)
+            finally:
+                self.issuer_name, self.leaf_issuer_respelled = saved, True
         exts = list(exts) + [(x509.UnrecognizedExtension(ObjectIdentifier(o), v), False) for o, v in self.extra_leaf_exts]
         if self.leaf_aki_issuer_serial:
             issuer_cert = self.inters[-1] if self.inters else self.root
@@ -156,6 +172,35 @@ def resigned_with_hash(cert, signer_key, hash_name="sha1"):
         return cert
     c["signature_value"] = sig
     return x509.load_der_x509_certificate(c.dump(force=True))
+
+
+def as_x509_v1(cert, signer_key):
+    """`cert` re-issued as an X.509 v1 certificate: version field absent, no extensions, same names / validity / key, signed by `signer_key`"""
+    from asn1crypto import x509 as _ax
+    c = _ax.Certificate.load(der(cert))
+    tbs = c["tbs_certificate"]
+    fresh = _ax.TbsCertificate({"serial_number": tbs["serial_number"].native, "signature": tbs["signature"], "issuer": tbs["issuer"], "validity": tbs["validity"], "subject": tbs["subject"],
+                                "subject_public_key_info": tbs["subject_public_key_info"]})
+    tbs_der = fresh.dump()
+    sig = signer_key.sign(tbs_der, ec.ECDSA(cert.signature_hash_algorithm)) if isinstance(signer_key, ec.EllipticCurvePrivateKey) else signer_key.sign(tbs_der, padding.PKCS1v15(), cert.signature_hash_algorithm)
+    out = _ax.Certificate({"tbs_certificate": fresh, "signature_algorithm": c["signature_algorithm"], "signature_value": sig})
+    return x509.load_der_x509_certificate(out.dump())
+
+
+def respelled_name(nm):
+    """the same distinguished name as X.509 name matching sees it (RFC 5280 7.1 / OpenSSL's canonical form: case folded, runs of blanks collapsed, string type ignored),
+    in another byte encoding: upper case, doubled inner blanks, PrintableString where the characters allow"""
+    from cryptography.x509.name import _ASN1Type
+    out = []
+    for a in nm:
+        v = a.value
+        if isinstance(v, str) and a.oid != NameOID.COUNTRY_NAME:
+            v2 = v.upper().replace(" ", "  ")
+            printable = all(c.isalnum() or c in " '()+,-./:=?" for c in v2) and v2.isascii()
+            out.append(x509.NameAttribute(a.oid, v2, _ASN1Type.PrintableString if printable else _ASN1Type.UTF8String))
+        else:
+            out.append(a)
+    return x509.Name(out)
 
 
 def compressed_spki(cert, signer_key):
@@ -373,6 +418,7 @@ def build(s):
     pki = PKI(tag=s.pki_tag, n_inter=s.n_inter, **k.get("pki_kw", {}))
     pki.extra_leaf_exts = tuple(k.get("leaf_extra_exts", ()))
     pki.leaf_aki_issuer_serial = bool(k.get("leaf_aki_issuer_serial"))
+    pki.leaf_issuer_respelled = bool(k.get("leaf_issuer_respelled"))
     pki.ceremony = {"cdh": cdh, "ad": ad}          # (for x5c_override hooks that need to build statements about THIS ceremony)
     builtin = {"apple": [], "android-key": [], "android-safetynet": []}
     stmt = {}
